@@ -42,6 +42,10 @@ pub struct Shape {
     pub newest: usize,
     /// number of populated directories: one contiguous run in rotation order ending at `newest`
     pub populated: usize,
+    /// where the upload times lie relative to any plausible client clock: 0 = all in the past (2023),
+    /// 1 = all in the far future (2200), k >= 2 = the newest k-1 directories in the future, the rest in the past
+    #[serde(default)]
+    pub time_mode: u32,
 }
 
 impl Shape {
@@ -115,7 +119,16 @@ impl ShapeWorld {
             if let Some(t) = self.shape.time_of(d) {
                 // several chunks in the directory; the first listed one carries the directory's upload time
                 for k in 0..3usize {
-                    let secs = 1_700_000_000 + t * 10 + k as i64;
+                    // the listing timestamps may lie in the client's future (clock skew): the statement
+                    // speaks of the most recent upload, not of uploads before "now"
+                    let back = 1_000_000 - t;
+                    let future = match self.shape.time_mode {
+                        0 => false,
+                        1 => true,
+                        m => back < (m as i64 - 1),
+                    };
+                    let base: i64 = if future { 7_258_118_400 } else { 1_700_000_000 };
+                    let secs = base + t * 10 + k as i64;
                     let dt = chrono::DateTime::<chrono::Utc>::from_timestamp(secs, 0).expect("valid time");
                     objects.push(ListedObject {
                         key: format!("{}/{}/20240804-101007-{:03}-{}", self.site, d, k + 1, if k == 0 { "S" } else { "I" }),
@@ -218,6 +231,8 @@ pub fn classify(s: &Shape) -> CaseInfo {
         .class(s.populated == 1, "single")
         .class(s.populated > 0 && s.newest == s.n, "newest-is-last-directory")
         .class(s.populated > 0 && s.populated < s.n && s.newest == s.populated, "gap-at-end")
+        .class(s.time_mode == 1, "upload-times-in-the-future")
+        .class(s.time_mode >= 2, "upload-times-straddle-now")
 }
 
 pub fn run(ctx: &Ctx, rep: &mut Report) {
@@ -240,7 +255,7 @@ pub fn run(ctx: &Ctx, rep: &mut Report) {
                             let mut newest = 1 + w;
                             while newest <= n {
                                 for populated in 1..=n {
-                                    let s = Shape { n, newest, populated };
+                                    let s = Shape { n, newest, populated, time_mode: 0 };
                                     let r = crate::runner::guard(|| check_search_shape(&s)).unwrap_or_else(|p| Err(Fail::new("panic:oracle-or-code", p)));
                                     if let Err(f) = r {
                                         if fails.iter().all(|(g, _)| g.sig != f.sig) {
@@ -261,7 +276,7 @@ pub fn run(ctx: &Ctx, rep: &mut Report) {
                     rep.record_failure("search-shapes", f, json!(s));
                 }
             }
-            let empty = Shape { n, newest: 1, populated: 0 };
+            let empty = Shape { n, newest: 1, populated: 0, time_mode: 0 };
             if let Err(f) = check_search_shape(&empty) {
                 rep.record_failure("search-shapes", f, json!(empty));
             }
@@ -281,10 +296,10 @@ pub fn run(ctx: &Ctx, rep: &mut Report) {
     // (ii) the real entry point over HTTP
     {
         let fixed: Vec<Shape> = {
-            let mut v = vec![Shape { n: 999, newest: 1, populated: 0 }];
+            let mut v = vec![Shape { n: 999, newest: 1, populated: 0, time_mode: 0 }];
             for p in [1usize, 2, 500, 997, 998, 999] {
                 for c in [1usize, 2, 500, 998, 999] {
-                    v.push(Shape { n: 999, newest: p, populated: c });
+                    v.push(Shape { n: 999, newest: p, populated: c, time_mode: ((p + c) % 4) as u32 });
                 }
             }
             v
@@ -306,13 +321,16 @@ pub fn run(ctx: &Ctx, rep: &mut Report) {
         || {
             let pos = || prop_oneof![6 => 1usize..=999, 1 => Just(1usize), 1 => Just(999usize), 1 => Just(998usize), 1 => 1usize..=5, 1 => 995usize..=999];
             let cnt = prop_oneof![6 => 1usize..=999, 1 => Just(1usize), 1 => Just(999usize), 1 => Just(0usize), 2 => 1usize..=20, 1 => 980usize..=999];
-            (pos(), cnt).prop_map(|(newest, populated)| Shape { n: 999, newest, populated })
+            let mode = prop_oneof![3 => Just(0u32), 2 => Just(1u32), 2 => 2u32..=6, 1 => 2u32..=600];
+            (pos(), cnt, mode).prop_map(|(newest, populated, time_mode)| Shape { n: 999, newest, populated, time_mode })
         },
         classify,
         check_http_shape,
     );
     rep.require_class("latest-volume-http", "wrapped", 20);
     rep.require_class("latest-volume-http", "newest-is-last-directory", 5);
+    rep.require_class("latest-volume-http", "upload-times-in-the-future", 20);
+    rep.require_class("latest-volume-http", "upload-times-straddle-now", 20);
 }
 
 pub fn replay(sub: &str, case: &Value) -> Check {
